@@ -123,6 +123,8 @@ def draw_interval(r):
     """(c, h): centre and half width; a = c-h, b = c+h (or swapped)."""
     e = wpick(r, [((-2, 2), 6), ((-12, -2), 2), ((2, 12), 2)])
     h = 10.0 ** r.uniform(*e)
+    if chance(r, 0.06):
+        return 0.0, 1.0              # exactly [-1, 1]: the interval on which the rule itself is tabulated
     ck = wpick(r, [("zero", 3), ("near", 4), ("far", 2), ("neg", 2)])
     if ck == "zero":
         c = 0.0
@@ -227,7 +229,8 @@ def plan(S, prop, mode, tier, avoid):
             explicit_seen = True
         elif k == "rule":
             c, h = draw_interval(r)
-            op.update({"c": c, "h": h, "n": npts(), "rev": chance(r, 0.15)})
+            op.update({"c": c, "h": h, "n": npts(), "rev": chance(r, 0.15),
+                       "ety": wpick(r, [("py", 5), ("f8", 1), ("f4", 1.5)])})
         elif k == "poly":
             c, h = draw_interval(r)
             n = r.randrange(1 if not no_n1 else 2, 31)
@@ -390,7 +393,16 @@ def execute(script, run, env):
                 continue
             rng_arg = {"list": [a, b], "tuple": (a, b), "array": np.array([a, b])}[op["rk"]]
             feats = {"kind": "func", "npts": n_eff if n_eff <= 2 else "n>2"}
-            f_call = f
+            def f_call(x, _f=f):
+                # an integrand may compute inside the array it was handed (x *= x): here it returns its value and
+                # then overwrites the argument
+                y = _f(x)
+                if isinstance(x, np.ndarray) and x.flags.writeable and x.size:
+                    try:
+                        x[...] = np.nan
+                    except Exception:
+                        pass
+                return y
             if op.get("reenter"):
                 # an iterated integral written with ONE object: while the outer call evaluates its integrand, the
                 # integrand asks the same object for an inner integral (same point count: npts omitted)
@@ -468,6 +480,13 @@ def execute(script, run, env):
                 continue
             c, h, n = op["c"], op["h"], op["n"]
             a, b = (c + h, c - h) if op.get("rev") else (c - h, c + h)
+            ety = op.get("ety", "py")
+            if ety == "f8":
+                a, b = np.float64(a), np.float64(b)
+            elif ety == "f4" and float(np.float32(a)) != float(np.float32(b)) and np.isfinite(np.float32(a)) and np.isfinite(np.float32(b)):
+                # end points taken from a single-precision column: the interval IS the pair of float32 values
+                a, b = np.float32(a), np.float32(b)
+                run.fault("interval_end_points_of_type_float32")
             _judge_rule(run, integrate, a, b, n)
         elif k == "poly":
             if not judge:
@@ -543,6 +562,7 @@ def _judge_rule(run, integrate, a, b, n):
     except Exception as e:
         run.fail("quad.rule.raises", feats, "gauleg(%r,%r,%d) raised %r" % (a, b, n, e))
         return
+    a, b = float(a), float(b)          # the reference works on the exact values of the end points
     run.event(0, "rule", "%r" % ((a, b, n),), "ok", adigest((x, w)))
     run.checks += 1
     W = abs(b - a)
